@@ -13,6 +13,7 @@
 #include <eav.h>
 #include <string.h>
 #include <eav/private.h>
+#include <eav/verif_hooks.h>
 
 
 extern int
@@ -26,7 +27,10 @@ is_ipv4 (const char *start, const char *end)
 #define BYTES_NEEDED 4
 
 
-    for (cp = start; cp < end && (ch = *(unsigned const char *) cp) != 0; cp++) {
+    for (cp = start; cp < end && (ch = *(unsigned const char *) cp) != 0; cp++)
+    EAV_VERIF_LOOP(is_ipv4)
+    {
+        EAV_VERIF_STEP(is_ipv4)
         if (ISDIGIT(ch)) {
             if (in_byte == 0) {
                 in_byte = 1;
@@ -76,7 +80,10 @@ is_ipv6 (const char *start, const char *end)
     int     len = 0;
 
 
-    for ( ; cp < (unsigned char *) end; ) {
+    for ( ; cp < (unsigned char *) end; )
+    EAV_VERIF_LOOP(is_ipv6)
+    {
+        EAV_VERIF_STEP(is_ipv6)
         switch (*cp) {
         case 0:
             /* Terminate the loop. */
